@@ -403,7 +403,7 @@ def snapshot(solver, rec, msg=None):
         evals=int(solver.evaluations), gens=int(solver.generations),
         ehist=[fl(e) for e in solver.energy_history], shist=[_vec(x) for x in solver.solution_history],
         emx=emx, emy=emy, ncalls=len(rec.cost_calls), msg=msg_kind(msg), ncb=len(rec.cb), nstep=rec.nstep,
-        term_now=_term_now(solver), exitreq=bool(solver._EARLYEXIT), nsm=len(solver._stepmon),
+        term_now=_term_now(solver, rec.state.get("pending_term")), exitreq=bool(solver._EARLYEXIT), nsm=len(solver._stepmon),
         maxiter=_lim(solver._maxiter), maxfun=_lim(solver._maxfun), live=bool(solver._live),
         synced=(solver._energy_history is None),
         # the trial solution(s) the last iteration left behind (read by terminations such as SolutionImprovement): state a snapshot has to carry
@@ -421,9 +421,10 @@ def _trial(solver):
         return None
 
 
-def _term_now(solver):
+def _term_now(solver, pending=None):
+    """the verdict of the termination condition that the next Step will consult (a condition waiting to be handed to it as keyword included)"""
     try:
-        return bool(solver._termination(solver))
+        return bool((pending or solver._termination)(solver))
     except Exception:
         return None
 
@@ -484,6 +485,8 @@ def apply_op(solver, rec, op, k, case_tag):
     res, msg = {}, None
     tag = solver._verif_tag
     st = rec.state
+    if st.get("pending_term") is not None and o != "Step":
+        solver.SetTermination(st.pop("pending_term"))            # no Step follows directly: an ordinary SetTermination call after all
     if st.get("pending_cons") is not None and o != "Step":
         solver.SetConstraints(st.pop("pending_cons")[0])       # no Step follows directly: an ordinary SetConstraints call after all
         st.pop("pending_prev", None)
@@ -524,7 +527,10 @@ def apply_op(solver, rec, op, k, case_tag):
     elif o == "SetLimits":
         solver.SetEvaluationLimits(op["g"], op["e"], new=op["new"])
     elif o == "SetTermination":
-        solver.SetTermination(make_term(op["term"]))
+        if op.get("defer"):
+            st["pending_term"] = make_term(op["term"])      # handed to the next Step as its `termination=` argument
+        else:
+            solver.SetTermination(make_term(op["term"]))
     elif o == "SetEvalMonitor":
         solver.SetEvaluationMonitor(solver._evalmon if op.get("same") else Monitor(), new=op["new"])
     elif o == "SetStepMonitor":
@@ -544,6 +550,8 @@ def apply_op(solver, rec, op, k, case_tag):
         pend = st.pop("pending_cons", None)
         if pend is not None:
             kw["constraints"] = pend[0]
+        if st.get("pending_term") is not None:
+            kw["termination"] = st.pop("pending_term")           # Step(termination=T): registered before the check that precedes the iteration
         msg = solver.Step(**kw)
         if pend is not None:
             prev = st.pop("pending_prev", (None, None, None))
